@@ -240,3 +240,33 @@ def gen_history(rng, n_steps, ops=ALL_OPS, start=None):
     sh = Shadow(start)
     steps = [gen_step(rng, sh, ops) for _ in range(n_steps)]
     return start, steps
+
+
+def directed_reconvert(rng, start):
+    """a gate that `into_bench` rewrites with a helper gate; the conversion; the label is freed (renamed or removed) and
+    a new gate of the same kind takes it — reading the renamed gate, so that a helper shared with the first conversion
+    would close a cycle or feed the wrong signal; a few dead gates come and go in between (the size of the circuit at
+    the second conversion runs through the values around its size at the first); the second conversion; a copy"""
+    labels = [g[0] for g in start['gates']]
+    if len(labels) < 2 or any(l.startswith('rc_') for l in labels):
+        return None
+    kind = rng.choice(['GT', 'LT', 'GEQ', 'LEQ', 'GT', 'LT', 'ALWAYS_TRUE', 'ALWAYS_FALSE'])
+    const = kind.startswith('ALWAYS')
+    if const and not start['inputs']:
+        return None
+    a, b, c = rng.choice(labels), rng.choice(labels), rng.choice(labels)
+    g = rng.choice(['rc_g', 'rc_g1', 'rc_1'])
+    steps = [['add_gate', 'rc_d%d' % i, 'NOT', [a]] for i in range(3)]
+    steps += [['add_gate', g, kind, [] if const else [a, b]], ['mark_as_output', g], ['into_bench']]
+    freed = rng.choice(['rename', 'rename', 'remove'])
+    if freed == 'rename':
+        steps.append(['rename_gate', g, 'rc_out'])
+    else:
+        steps += [['set_outputs', [o for o in start['outputs']]], ['remove_gate', g]]
+    for i in range(rng.randint(0, 3)):
+        steps.append(['remove_gate', 'rc_d%d' % i])
+    second = [] if const else ([c, 'rc_out'] if freed == 'rename' and rng.random() < 0.7 else [c, a])
+    if rng.random() < 0.5:
+        second = second[::-1]
+    steps += [['add_gate', g, kind, second], ['mark_as_output', g], ['into_bench'], ['copy']]
+    return start, steps
